@@ -376,12 +376,11 @@ func (c *CEnv) evalBin(n *CBin) (TT, error) {
 		return TT{T(SInt, "(div %s %s)", a.S, b.S), nil}, nil // floor division for positive divisors (SMT-LIB div)
 	case "%":
 		return TT{T(SInt, "(mod %s %s)", a.S, b.S), nil}, nil
-	case "&":
-		return TT{T(SInt, "(bitand %s %s)", a.S, b.S), nil}, nil
-	case "|":
-		return TT{T(SInt, "(bitor %s %s)", a.S, b.S), nil}, nil
-	case "^":
-		return TT{T(SInt, "(bitxor %s %s)", a.S, b.S), nil}, nil
+	case "&", "|", "^":
+		fn := map[string]string{"&": "bitand", "|": "bitor", "^": "bitxor"}[n.Op]
+		// ground instance of commutativity (a true fact about the operation; keeps the query quantifier-free)
+		c.e.assume(tTrue, T(SBool, "(= (%s %s %s) (%s %s %s))", fn, a.S, b.S, fn, b.S, a.S))
+		return TT{T(SInt, "(%s %s %s)", fn, a.S, b.S), nil}, nil
 	}
 	return TT{}, fmt.Errorf("unsupported operator %s", n.Op)
 }
